@@ -272,6 +272,8 @@ class Desugar:
         self.macros = {n.name: n for n in g.nts if n.params}
         self.minst = {}
         self.sugar_nts = set()     # names of nonterminals introduced for sugar (inline-like)
+        self.share = True
+        self.memo = {}
 
     def fresh_name(self, base):
         self.fresh += 1
@@ -325,9 +327,19 @@ class Desugar:
             return s.name
         if s.k == "n":
             return s.name
+        # Identical uses (same printed form) denote the same instantiation, as in any macro
+        # expansion by substitution; this matters for C03 (two copies of `"d"+` would add a
+        # reduce/reduce conflict the shared one does not have), not for language or values.
+        key = None
+        if s.k in ("rep", "grp", "mac") and self.share:
+            key = sym_text(s)
+            if key in self.memo:
+                return self.memo[key]
         if s.k == "rep":
             x = self.sym(s.inner, {})
             r = self.fresh_name("rep" + {"*": "S", "+": "P", "?": "Q"}[s.op])
+            if key:
+                self.memo[key] = r
             if s.op == "?":
                 # `X?` behaves as an inlined nonterminal: X => Some(<>) | => None
                 self.sugar_nts.add(r)
@@ -348,6 +360,8 @@ class Desugar:
             return r
         if s.k == "grp":
             r = self.fresh_name("grp")
+            if key:
+                self.memo[key] = r
             self.sugar_nts.add(r)
             alt = Alt(items=s.items, action=None)
             self.do_alt(r, alt, {}, unit=False, meta="grp")
@@ -357,6 +371,8 @@ class Desugar:
             key = s.name + "<" + ",".join(sym_text(a) for a in s.args) + ">"
             # each use gets its own fresh nonterminal ("distinct instantiations never interfere")
             r = self.fresh_name("mac_" + s.name)
+            if key:
+                self.memo[key] = r
             env2 = dict(zip(m.params, s.args))
             self.do_nt(r, m, env2)
             return r
